@@ -107,6 +107,7 @@ class C11(Prop):
         if rng.random() < 0.3:
             c['two_sided'] = rng.choice(['normal', 'crossed'])      # the real BacktestDataHandler over a source with bid != ask
             c['nan_first'] = rng.random() < 0.4                     # ... behind an earlier-listed source that has no bar yet
+            c['handler_universe'] = rng.random() < 0.4              # ... in a handler whose universe lists none of the assets
         if rng.random() < 0.3:
             ws = [[a, abs(w) if False else w] for a, w in c['weights']]
             c['warmup_calls'] = [ws + [['EQ:WARM1', 0.5], ['EQ:WARM2', -0.25]], [['EQ:WARM2', 1.0]]][:rng.randint(1, 2)]
